@@ -126,7 +126,7 @@ static void tr_case(uint64_t i, void *ctx)
 /* ------------------------------------------------------------------ (2) lifecycle */
 enum { O_L, O_C, O_A, O_D, NOBJ };
 static const char *ON[NOBJ] = { "listener", "client", "accepted", "duplicate" };
-typedef struct { spif_socket_t o[NOBJ]; int owns[NOBJ]; int listening, connected, pending, peer_open; int fd0; int dup_of; } st_t;
+typedef struct { spif_socket_t o[NOBJ]; int owns[NOBJ]; int opened[NOBJ]; int listening, connected, pending, peer_open; int fd0; int dup_of; int lgen, pending_gen; } st_t;    /* lgen: which listening description the listener object holds; a queued connection stays with the description it reached */
 enum { K_NEW, K_OPEN, K_OPEN_FAIL_SOCKET, K_OPEN_FAIL_BIND, K_OPEN_FAIL_LISTEN, K_OPEN_FAIL_CONNECT, K_ACCEPT, K_ACCEPT_FAIL, K_NBIO, K_SEND, K_RECV, K_CLOSE, K_DUP, K_DEL };
 typedef struct { int k, obj; } op_t;
 static op_t OPS[64]; static int NOPS;
@@ -156,9 +156,10 @@ static int enabled(void *vs, int op)
     st_t *s = vs; op_t *o = &OPS[op]; spif_socket_t x = s->o[o->obj];
     switch (o->k) {
     case K_NEW: return x == NULL;
-    case K_OPEN: case K_OPEN_FAIL_SOCKET: return x != NULL && !s->owns[o->obj];            /* not opened yet (or closed again) */
-    case K_OPEN_FAIL_BIND: case K_OPEN_FAIL_LISTEN: case K_OPEN_FAIL_CONNECT: return x != NULL && !s->owns[o->obj];
-    case K_ACCEPT: case K_ACCEPT_FAIL: return x != NULL && s->listening && s->owns[O_L] && s->pending && s->o[O_A] == NULL;
+    case K_OPEN_FAIL_SOCKET: return x != NULL && !s->owns[o->obj];                          /* socket() is only called while the object has no descriptor */
+    case K_OPEN: case K_OPEN_FAIL_BIND: case K_OPEN_FAIL_LISTEN: case K_OPEN_FAIL_CONNECT:
+        return x != NULL && !s->opened[o->obj];                                             /* not opened yet, closed again, or left half-open by a failed attempt (a retry) */
+    case K_ACCEPT: case K_ACCEPT_FAIL: return x != NULL && s->listening && s->owns[O_L] && s->pending && s->pending_gen == s->lgen && s->o[O_A] == NULL;
     case K_NBIO: return x != NULL && s->owns[o->obj];
     case K_SEND: return x != NULL && s->owns[o->obj] && (o->obj == O_C ? 1 : 1);
     case K_RECV: return x != NULL && s->owns[o->obj] && (o->obj == O_A || s->dup_of == O_A);   /* only non-blocking descriptors are read */
@@ -192,15 +193,18 @@ static void apply(void *vs, int op)
         if (o->obj == O_L) unlink(g_path);
         g_fail_socket = o->k == K_OPEN_FAIL_SOCKET; g_fail_bind = o->k == K_OPEN_FAIL_BIND; g_fail_listen = o->k == K_OPEN_FAIL_LISTEN; g_fail_connect = o->k == K_OPEN_FAIL_CONNECT;
         spif_bool_t r = spif_socket_open(x);
+        int consumed = o->k != K_OPEN && !(g_fail_socket || g_fail_bind || g_fail_listen || g_fail_connect);      /* the armed call was made (and failed) */
         g_fail_socket = g_fail_bind = g_fail_listen = g_fail_connect = 0;
         /* the listener's open succeeds unless a failure is injected; whether the client's connect() finds a listening
          * description depends on duplicates of the listener too, so only "an injected failure makes it fail" is demanded there */
-        if (o->k != K_OPEN && r) FAIL(site, "model:return", shape, "open returned TRUE although a system call failed");
-        if (o->k == K_OPEN && o->obj == O_L && !r) FAIL(site, "model:return", shape, "open of the listener failed without an injected fault");
+        int retry = s->owns[o->obj];              /* a descriptor from an earlier, failed attempt is still held: what the repeated bind()/listen() answer is the kernel's business */
+        if (consumed && r) FAIL(site, "model:return", shape, "open returned TRUE although a system call failed");
+        if (o->k == K_OPEN && o->obj == O_L && !r && !retry) FAIL(site, "model:return", shape, "open of the listener failed without an injected fault");
         /* whatever happened, a descriptor that socket() produced belongs to the object until it is closed or deleted */
-        s->owns[o->obj] = (o->k != K_OPEN_FAIL_SOCKET);
-        if (r && o->obj == O_L) { s->listening = 1; spif_socket_set_nbio(x); }
-        if (r && o->obj == O_C) { s->connected = 1; s->pending = 1; s->peer_open = 1; }
+        s->owns[o->obj] = retry || (o->k != K_OPEN_FAIL_SOCKET);
+        s->opened[o->obj] = r ? 1 : 0;
+        if (r && o->obj == O_L) { s->listening = 1; if (!retry) s->lgen++; spif_socket_set_nbio(x); }      /* a fresh descriptor was bound to the (unlinked and re-created) path */
+        if (r && o->obj == O_C) { s->connected = 1; s->pending = 1; s->pending_gen = s->lgen; s->peer_open = 1; }
         break; }
     case K_ACCEPT: case K_ACCEPT_FAIL: {
         g_fail_accept = o->k == K_ACCEPT_FAIL;
@@ -208,22 +212,22 @@ static void apply(void *vs, int op)
         g_fail_accept = 0;
         if (o->k == K_ACCEPT_FAIL) { if (a) { FAIL(site, "model:return", shape, "accept returned an object although accept() failed"); spif_socket_del(a); } }
         else if (!a) FAIL(site, "model:return", shape, "accept returned NULL with a connection pending");
-        else { s->o[O_A] = a; s->owns[O_A] = 1; s->pending = 0; }
+        else { s->o[O_A] = a; s->owns[O_A] = 1; s->opened[O_A] = 1; s->pending = 0; }
         break; }
     case K_NBIO: if (!spif_socket_set_nbio(x)) FAIL(site, "model:return", shape, "set_nbio failed on an open descriptor"); break;
     case K_SEND: { spif_str_t d = spif_str_new_from_ptr((spif_charptr_t) "hi");
         spif_bool_t r = spif_socket_send(x, d); spif_str_del(d);
         /* a failed send may close the descriptor; it must then also forget it (checked below through fd_open) */
-        if (!r && x->fd < 0) s->owns[o->obj] = 0;
+        if (!r && x->fd < 0) { s->owns[o->obj] = 0; s->opened[o->obj] = 0; }
         break; }
     case K_RECV: { spif_str_t g = spif_socket_recv(x); if (g) { if (g->s && g->len != (spif_stridx_t) strlen((char *) g->s)) FAIL(site, "invariant:len-differs-from-strlen", shape, "recv result len=%ld", (long) g->len); spif_str_del(g); } break; }
-    case K_CLOSE: if (!spif_socket_close(x)) FAIL(site, "model:return", shape, "close of an open descriptor failed"); s->owns[o->obj] = 0;
-        if (o->obj == O_L) s->listening = 0;
+    case K_CLOSE: if (!spif_socket_close(x)) FAIL(site, "model:return", shape, "close of an open descriptor failed"); s->owns[o->obj] = 0; s->opened[o->obj] = 0;
+        if (o->obj == O_L) { s->listening = 0; s->pending = 0; }      /* a queued connection belongs to the listening description, not to a later one */
         break;
-    case K_DUP: { spif_socket_t d = spif_socket_dup(x); if (!d) FAIL(site, "model:return", shape, "dup returned NULL"); else { s->o[O_D] = d; s->owns[O_D] = s->owns[o->obj]; s->dup_of = o->obj;
+    case K_DUP: { spif_socket_t d = spif_socket_dup(x); if (!d) FAIL(site, "model:return", shape, "dup returned NULL"); else { s->o[O_D] = d; s->owns[O_D] = s->owns[o->obj]; s->opened[O_D] = s->opened[o->obj]; s->dup_of = o->obj;
             if (s->owns[o->obj] && d->fd == x->fd) FAIL(site, "model:shared-descriptor", shape, "the duplicate uses the same descriptor number as the original"); } break; }
-    case K_DEL: if (!spif_socket_del(x)) FAIL(site, "model:return", shape, "del returned FALSE"); s->o[o->obj] = NULL; s->owns[o->obj] = 0;
-        if (o->obj == O_L) s->listening = 0;
+    case K_DEL: if (!spif_socket_del(x)) FAIL(site, "model:return", shape, "del returned FALSE"); s->o[o->obj] = NULL; s->owns[o->obj] = 0; s->opened[o->obj] = 0;
+        if (o->obj == O_L) { s->listening = 0; s->pending = 0; }      /* a queued connection belongs to the listening description, not to a later one */
         if (o->obj == O_D) s->dup_of = -1;
         break;
     }
@@ -232,8 +236,8 @@ static void apply(void *vs, int op)
 static void canon(void *vs, char *b, size_t n)
 {
     st_t *s = vs; size_t k = 0;
-    for (int o = 0; o < NOBJ; o++) k += (size_t) snprintf(b + k, n - k, "%s:%s%s ", ON[o], s->o[o] ? "obj" : "-", s->o[o] ? (s->o[o]->fd >= 0 ? "+fd" : "") : "");
-    snprintf(b + k, n - k, "listening=%d pending=%d dup_of=%d flagsC=%x", s->listening, s->pending, s->dup_of, s->o[O_C] ? (unsigned) (s->o[O_C]->flags & 0x2000) : 0);
+    for (int o = 0; o < NOBJ; o++) k += (size_t) snprintf(b + k, n - k, "%s:%s%s%s ", ON[o], s->o[o] ? "obj" : "-", s->o[o] ? (s->o[o]->fd >= 0 ? "+fd" : "") : "", s->opened[o] ? "+open" : "");
+    snprintf(b + k, n - k, "listening=%d pending=%d%s dup_of=%d flagsC=%x", s->listening, s->pending, s->pending && s->pending_gen != s->lgen ? "(on an earlier description)" : "", s->dup_of, s->o[O_C] ? (unsigned) (s->o[O_C]->flags & 0x2000) : 0);
 }
 static void teardown(void *vs)
 {
